@@ -1,5 +1,6 @@
 import ChythonModel.Proofs.C08Labels
 import ChythonModel.Proofs.C08PrintBuild
+import ChythonModel.Model.SmartsFull
 import Mathlib.Data.List.Perm.Basic
 import Mathlib.Tactic.SplitIfs
 /-!
@@ -300,6 +301,22 @@ theorem smarts_reject_kind (s : List Char) (rad : List Nat) (e : PyErr) (h : sma
   | err e' => simp only [smartsModel, hI] at h; cases h; rfl
   | ok g => simp only [smartsModel, hI] at h; cases h
   | unsupported => simp only [smartsModel, hI] at h; cases h
+
+/-- the same for the full text syntax (plain atoms, branches, ring closures; C03's tokenizer model + the full parser model):
+    nothing but `IncorrectSmarts` leaves `smarts()` -/
+theorem smartsFull_reject_kind (text : List Nat) (rad : List Nat) (e : PyErr) (h : smartsFull text rad = .err e) :
+    e = .incorrectSmarts := by
+  cases hI : smartsFullInner text rad with
+  | err e' => simp only [smartsFull, hI] at h; cases h; rfl
+  | ok g => simp only [smartsFull, hI] at h; cases h
+  | unsupported => simp only [smartsFull, hI] at h; cases h
+
+/-- a ring-closure bond is specified consistently on both sides or the text is rejected: the comparison the parser uses is
+    Python's `==` — equal ints, equal lists, equal query bonds; an int and a `QueryBond` compare by membership -/
+theorem pbNe_spec :
+    (∀ x y, pbNe (.order x) (.order y) = (x != y)) ∧ (∀ x y, pbNe (.orders x) (.orders y) = (x != y)) ∧
+    (∀ x l, pbNe (.order x) (.orders l) = true) ∧ (∀ x q, pbNe (.order x) (.query q) = !q.orders.contains x) := by
+  refine ⟨fun _ _ => rfl, fun _ _ => rfl, fun _ _ => rfl, fun _ _ => rfl⟩
 
 /-- the wrapper changes nothing but the error class: accepted strings and their query graphs are those of the inner reader -/
 theorem smarts_wrapper_transparent (s : List Char) (rad : List Nat) (g : QGraph) :
